@@ -271,6 +271,7 @@ def run(ctx):
         return json.dumps({k: v for k, v in o.items() if not k.startswith("_")})
 
     seen = set()
+    new_sigs = []
     for sig, text, idx in orc.findings:
         if sig in seen:
             continue
@@ -280,9 +281,12 @@ def run(ctx):
         keep = [a] + [k for k in range(a + 1, idx[-1] + 1)
                       if k in idx or ops[k].get("op") in ("advance", "seed", "authresp") or (ops[k].get("op") in ("s2s", "code") and impl[k].startswith("200"))]
         replay = "\n".join(clean(ops[k]) for k in keep) + "\n"
-        ctx.violation(sig, text, re.sub(r"[^A-Za-z0-9_.-]+", "_", sig.split(":", 1)[1])[:80] + ".jsonl", replay)
-    ctx.oblige("oracle:every-200-and-every-introspection-answer-justified(impl)", not orc.findings,
-               f"{len(orc.findings)} unjustified answers, {len(seen)} distinct signatures: {sorted(seen)[:6]}")
+        if ctx.violation(sig, text, re.sub(r"[^A-Za-z0-9_.-]+", "_", sig.split(":", 1)[1])[:80] + ".jsonl", replay):
+            new_sigs.append(sig)
+    ctx.oblige("oracle:every-200-and-every-introspection-answer-justified(impl)", not new_sigs,
+               f"{len(orc.findings)} unjustified answers, {len(seen)} distinct signatures, not known: {sorted(new_sigs)[:6]}")
+    if seen - set(new_sigs):
+        ctx.notes.append(f"known findings observed by the oracle: {sorted(seen - set(new_sigs))} ({len(orc.findings)} answers)")
 
     # generator ground truth vs the real PEX engine (keeps the harness-supplied verdicts honest)
     pex_mismatch = []
